@@ -145,6 +145,24 @@ def body(c):
             fl = ("static", "dynamic") if mname == "base" else (rng.choice(["static", "dynamic"]),)
             for f in fl:
                 cases.append({"id": 0, "src": "G2:" + mname, "flavour": f, "doc": doc, "opName": name, "vars": supplied})
+    n_g2 = len(cases) - n_g1
+    # ---- G3: seeded random type systems (dynamic flavour only), random valid documents and mutations over them ----
+    n_ts = 5 if c.quick else 60
+    for t in range(n_ts):
+        r3 = random.Random(c.seed * 1000 + t)
+        rts = valgen.random_ts(r3, ts["directives"])
+        gen3 = valgen.ValidDocGen(rts, r3)
+        for b in range(14 if c.quick else 60):
+            x = r3.random()
+            base = gen3.doc("subscription" if x < 0.1 else "mutation" if x < 0.2 else "query")
+            variants = [("base", base)]
+            for j in range(3):
+                mm = valgen.mutate(rts, base, r3)
+                if mm:
+                    variants.append(mm)
+            for mname, doc in variants:
+                name, supplied = valgen.supply(rts, doc, r3)
+                cases.append({"id": 0, "src": "G3:" + mname, "flavour": "dynamic", "doc": doc, "opName": name, "vars": supplied, "ts": rts})
     for i, x in enumerate(cases):
         x["id"] = i + 1
     vlib.write_ndjson(c.path("cases.ndjson"), cases)
@@ -194,9 +212,10 @@ def body(c):
     c.cov["rule"] = ("G1: every document within the budgets of %d pool configurations of Gen_ValDoc.tla (TLC BFS: %d documents%s; pools contain undefined names, "
                      "non-composite / non-overlapping type conditions, wrong-kind values, non-input and unknown variable types, unknown / misplaced / repeated directives, "
                      "several operations and fragment definitions); G2: %d seeded random valid documents x rule-targeted mutations (%d kinds, round-robin + random, some second-order); "
-                     "variables get valid values of their declared type or are left out; static and dynamic flavour; %d G1 cases + %d G2 cases; "
+                     "variables get valid values of their declared type or are left out; static and dynamic flavour; G3: %d seeded random type systems (objects, interfaces incl. interface inheritance, unions, enum, custom scalar, "
+                     "input objects, arguments with defaults; dynamic flavour, each compared with its live registry) with random documents and mutations; %d G1 + %d G2 + %d G3 cases; "
                      "distinct by (text, variables, flavour); every case exercises the property (valid => accepted, invalid => rejected before execution)"
-                     % (len(confs), g1_total, "" if exhaustive else ", seeded sample of %d per configuration" % cap, nbase, len(names), n_g1, len(cases) - n_g1))
+                     % (len(confs), g1_total, "" if exhaustive else ", seeded sample of %d per configuration" % cap, nbase, len(names), n_ts, n_g1, n_g2, len(cases) - n_g1 - n_g2))
     shown = set()
     for o in obs:
         vd = verdicts[o["id"]][0]
